@@ -109,13 +109,26 @@ class StmtsMixin:
             o = l['obj']
             if o.get('global'):
                 if st.guards: raise Unsupported('global write under guard')
+                self.global_var(st, o)        # make sure the entry snapshot has the initial value
                 st.ghost[('global', o.get('pkg', '') + '.' + o['name'])] = v
                 return
             if st.guards:
                 raise Unsupported('assignment under short-circuit guard')
+            bx = st.meta.get('boxed')
+            if bx and o['id'] in bx:
+                self.store_ptr(st, bx[o['id']], v)
+                return
             st.env[o['id']] = v
             st.names.setdefault(l['Name'], o['id'])
             return
+        if k == 'SelectorExpr' and l.get('sel') is None:
+            o = l['Sel'].get('obj') or {}
+            if o.get('kind') == 'Var' and o.get('global'):
+                if st.guards: raise Unsupported('global write under guard')
+                self.global_var(st, o)
+                st.ghost[('global', o.get('pkg', '') + '.' + o['name'])] = v
+                return
+            raise Unsupported('assignment to qualified identifier')
         if k == 'SelectorExpr':
             base = self.ev(st, l['X'])
             path = l['sel']['index']
@@ -463,10 +476,12 @@ class StmtsMixin:
         c = self.choose(len(exits)) if len(exits) > 1 else 0
         ex = exits[c]
         self.adopt(st, ex[1])
-        st.names = saved_names
         if ex[0] == 'fall':
+            st.names = dict(ex[1].names)
             self.loop_hints(st, spec, 'exit')
+            st.names = saved_names
             return
+        st.names = saved_names
         if ex[0] == 'break': raise BreakEx(ex[2])
         if ex[0] == 'continue': raise ContinueEx(ex[2])
         if ex[0] == 'return': raise ReturnEx(ex[2])
@@ -489,7 +504,7 @@ class StmtsMixin:
                 tid = self.obj_type(oid, h.env[oid])
                 if tid is None:
                     raise Unsupported('cannot havoc variable of unknown type')
-                nv = self.lay.fresh(tid, 'lv%d' % oid)
+                nv = self.lay.fresh(tid, 'lv%s' % (oid if isinstance(oid, int) else 'rng'))
                 # a slice variable that is only ever re-sliced keeps its backing array (and arrays written
                 # element-wise are havocked below through replace_arrays)
                 old = h.env[oid]
